@@ -268,6 +268,21 @@ where
             };
         }
         let unsupported = |tc: &TaskCtx, api: &str| tc.ret(api, json!({"k": "unsupported"}));
+        // a split whose receiving half goes on in this task (the sending half is kept alive until the task ends)
+        let mut kept_send: Option<S> = None;
+        macro_rules! split_keep_recv {
+            () => {
+                h = match std::mem::replace(&mut h, Handle::Gone) {
+                    Handle::Whole(w) => {
+                        let (s, r) = w.do_split();
+                        kept_send = Some(s);
+                        tc.ret("split", json!({"k": "ok"}));
+                        Handle::Recv(r)
+                    }
+                    o => o,
+                };
+            };
+        }
         for op in ops {
             let name = op["op"].as_str().unwrap_or("").to_string();
             let sid = match &h {
@@ -304,6 +319,7 @@ where
                     // recv_data until it reports the end of the body or an error; with "merge" the pieces are
                     // concatenated and logged as one data result (what the property compares is the byte sequence)
                     let merge = op["merge"] == true;
+                    let split_after = op["split_after"].as_u64();
                     let mut acc: Vec<u8> = vec![];
                     let mut pieces = 0u64;
                     let mut stop = false;
@@ -328,6 +344,9 @@ where
                                     acc.extend_from_slice(&d);
                                 } else {
                                     tc.ret("recv_data", data_res(&mut recv_off, &d));
+                                }
+                                if split_after == Some(pieces) {
+                                    split_keep_recv!();
                                 }
                             }
                             Some(Ok(None)) => {
@@ -415,6 +434,9 @@ where
                     tc.ret("drop", json!({"k": "ok"}));
                     break;
                 }
+                "split_keep_recv" => {
+                    split_keep_recv!();
+                }
                 "split" => {
                     let old = std::mem::replace(&mut h, Handle::Gone);
                     if let Handle::Whole(w) = old {
@@ -440,6 +462,7 @@ where
             }
         }
         drop(h);
+        drop(kept_send);
     })
 }
 
